@@ -832,3 +832,1074 @@ Proof.
                            (sxc_from_payload S v w kw mi mc mw k Hw Hk)).
 Qed.
 Print Assumptions C02_array_item_tables_from_payload.
+
+
+(* ---- BASES-APPENDIX:BEGIN (generated by tools/gen_bases_lemmas.py; do not edit) ---- *)
+(* ==== GenAgree (base measures and marginals): what matrix/measure.py, stripe/measure.py and
+   min_base_size_mask.py SAY NOW ==== *)
+(* Appended by tools/gen_bases_lemmas.py (statements generated from the lemmas of Proofs/GenAgreeBaseBlocks.v and
+   Proofs/GenAgreeMargins.v by tools/gen_bases_lemmas.py).  Gen/BasesSrc.v, Gen/StripeBasesSrc.v,
+   Gen/MaskSrc.v are rewritten from the source on every check by harness/translate/x_bases.py; [beval]
+   (Base/BasesExp.v: numpy values with numeric shapes, integer indexing in range, np.broadcast_to) is the
+   meaning of a translated member; [None] = the translator could not read the member.  [benv_std]
+   reads a cube-measure array from [cubem] by name and gives a recorded SumSubtotals call the meaning
+   [strat_std], which C04_gen_SumSubtotals proves matrix/subtotals.py denotes.  The four blocks of the
+   seven 2-D base measures ARE [col_base_blocks] / [row_base_blocks] / [table_base_blocks]
+   (Model/Proportions.v: the denominators of C03 / C11 / C04 / C10) resp. [col_ubase_blocks] /
+   [row_ubase_blocks] (Model/BaseBlocks.v), for ALL sizes, subtotal lists and arrays, under the index
+   hypotheses numpy needs (x[0] of an empty axis raises). *)
+From Coq Require String.
+From CC Require Base.BasesExp Model.Subtotals Model.Proportions Model.BaseBlocks Model.MinBaseMask
+     Gen.BasesSrc Gen.StripeBasesSrc Gen.MaskSrc Proofs.GenAgreeMeasTac Proofs.GenAgreeBasesTac
+     Proofs.GenAgreeBaseBlocks Proofs.GenAgreeMargins Proofs.BaseBlocksProofs.
+Section GenAgreeBases_C02.   (* scopes and imports below end with the section *)
+Import Coq.Strings.String CC.Base.BasesExp CC.Model.Subtotals CC.Model.Proportions CC.Model.BaseBlocks
+       CC.Gen.BasesSrc CC.Gen.StripeBasesSrc CC.Gen.MaskSrc CC.Proofs.GenAgreeMeasTac
+       CC.Proofs.GenAgreeBasesTac CC.Proofs.GenAgreeBaseBlocks CC.Proofs.GenAgreeMargins
+       CC.Proofs.BaseBlocksProofs.
+Import Coq.Lists.List.ListNotations CC.Base.XQ CC.Base.ListX CC.Model.CubeCounts.
+Local Close Scope Q_scope.
+Local Open Scope string_scope.
+Local Open Scope nat_scope.
+
+(* SecondOrderMeasures.<ColumnUnweightedBases>.blocks: [0][0], [0][1], [1][0], [1][1] *)
+Theorem C02_gen_ColumnUnweightedBases :
+  (match src_ColumnUnweightedBases_blocks_00 with
+  | Some e => forall nr nc rsubs csubs cubem cubeflag blk mblk mflag colbase,
+      bagrees_mat (beval (benv_std nr nc rsubs csubs cubem (cv1 "unweighted_cube_counts" "columns_base" (WVec nc (vnth colbase))) cubeflag blk mblk mflag) e) nr nc
+        (mnth (b_base (col_ubase_blocks nr nc rsubs csubs (cubem "unweighted_cube_counts" "column_bases") colbase)))
+  | None => True
+  end) /\
+  (match src_ColumnUnweightedBases_blocks_01 with
+  | Some e => forall nr nc rsubs csubs cubem cubeflag blk mblk mflag colbase,
+      bagrees_mat (beval (benv_std nr nc rsubs csubs cubem (cv1 "unweighted_cube_counts" "columns_base" (WVec nc (vnth colbase))) cubeflag blk mblk mflag) e) nr (List.length csubs)
+        (mnth (b_cols (col_ubase_blocks nr nc rsubs csubs (cubem "unweighted_cube_counts" "column_bases") colbase)))
+  | None => True
+  end) /\
+  (match src_ColumnUnweightedBases_blocks_10 with
+  | Some e => forall nr nc rsubs csubs cubem cubeflag blk mblk mflag colbase,
+      bagrees_mat (beval (benv_std nr nc rsubs csubs cubem (cv1 "unweighted_cube_counts" "columns_base" (WVec nc (vnth colbase))) cubeflag blk mblk mflag) e) (List.length rsubs) nc
+        (mnth (b_rows (col_ubase_blocks nr nc rsubs csubs (cubem "unweighted_cube_counts" "column_bases") colbase)))
+  | None => True
+  end) /\
+  (match src_ColumnUnweightedBases_blocks_11 with
+  | Some e => forall nr nc rsubs csubs cubem cubeflag blk mblk mflag colbase,
+      0 < nr ->
+      bagrees_mat (beval (benv_std nr nc rsubs csubs cubem (cv1 "unweighted_cube_counts" "columns_base" (WVec nc (vnth colbase))) cubeflag blk mblk mflag) e) (List.length rsubs) (List.length csubs)
+        (mnth (b_inter (col_ubase_blocks nr nc rsubs csubs (cubem "unweighted_cube_counts" "column_bases") colbase)))
+  | None => True
+  end).
+Proof. exact (conj gen_ColumnUnweightedBases_blocks_00 (conj gen_ColumnUnweightedBases_blocks_01 (conj gen_ColumnUnweightedBases_blocks_10 gen_ColumnUnweightedBases_blocks_11))). Qed.
+Print Assumptions C02_gen_ColumnUnweightedBases.
+
+(* SecondOrderMeasures.<ColumnWeightedBases>.blocks: [0][0], [0][1], [1][0], [1][1] *)
+Theorem C02_gen_ColumnWeightedBases :
+  (match src_ColumnWeightedBases_blocks_00 with
+  | Some e => forall nr nc rsubs csubs cubem cubeflag blk mblk mflag,
+      bagrees_mat (beval (benv_std nr nc rsubs csubs cubem cv0 cubeflag blk mblk mflag) e) nr nc
+        (mnth (b_base (col_base_blocks nr nc rsubs csubs (cubem "weighted_cube_counts" "column_bases"))))
+  | None => True
+  end) /\
+  (match src_ColumnWeightedBases_blocks_01 with
+  | Some e => forall nr nc rsubs csubs cubem cubeflag blk mblk mflag,
+      bagrees_mat (beval (benv_std nr nc rsubs csubs cubem cv0 cubeflag blk mblk mflag) e) nr (List.length csubs)
+        (mnth (b_cols (col_base_blocks nr nc rsubs csubs (cubem "weighted_cube_counts" "column_bases"))))
+  | None => True
+  end) /\
+  (match src_ColumnWeightedBases_blocks_10 with
+  | Some e => forall nr nc rsubs csubs cubem cubeflag blk mblk mflag,
+      (0 < List.length rsubs -> 0 < nr) ->
+      bagrees_mat (beval (benv_std nr nc rsubs csubs cubem cv0 cubeflag blk mblk mflag) e) (List.length rsubs) nc
+        (mnth (b_rows (col_base_blocks nr nc rsubs csubs (cubem "weighted_cube_counts" "column_bases"))))
+  | None => True
+  end) /\
+  (match src_ColumnWeightedBases_blocks_11 with
+  | Some e => forall nr nc rsubs csubs cubem cubeflag blk mblk mflag,
+      0 < nr ->
+      bagrees_mat (beval (benv_std nr nc rsubs csubs cubem cv0 cubeflag blk mblk mflag) e) (List.length rsubs) (List.length csubs)
+        (mnth (b_inter (col_base_blocks nr nc rsubs csubs (cubem "weighted_cube_counts" "column_bases"))))
+  | None => True
+  end).
+Proof. exact (conj gen_ColumnWeightedBases_blocks_00 (conj gen_ColumnWeightedBases_blocks_01 (conj gen_ColumnWeightedBases_blocks_10 gen_ColumnWeightedBases_blocks_11))). Qed.
+Print Assumptions C02_gen_ColumnWeightedBases.
+
+(* SecondOrderMeasures.<ColumnSquaredBases>.blocks: [0][0], [0][1], [1][0], [1][1] *)
+Theorem C02_gen_ColumnSquaredBases :
+  (match src_ColumnSquaredBases_blocks_00 with
+  | Some e => forall nr nc rsubs csubs cubem cubeflag blk mblk mflag,
+      bagrees_mat (beval (benv_std nr nc rsubs csubs cubem cv0 cubeflag blk mblk mflag) e) nr nc
+        (mnth (b_base (col_base_blocks nr nc rsubs csubs (cubem "weighted_squared_cube_counts" "column_bases"))))
+  | None => True
+  end) /\
+  (match src_ColumnSquaredBases_blocks_01 with
+  | Some e => forall nr nc rsubs csubs cubem cubeflag blk mblk mflag,
+      bagrees_mat (beval (benv_std nr nc rsubs csubs cubem cv0 cubeflag blk mblk mflag) e) nr (List.length csubs)
+        (mnth (b_cols (col_base_blocks nr nc rsubs csubs (cubem "weighted_squared_cube_counts" "column_bases"))))
+  | None => True
+  end) /\
+  (match src_ColumnSquaredBases_blocks_10 with
+  | Some e => forall nr nc rsubs csubs cubem cubeflag blk mblk mflag,
+      (0 < List.length rsubs -> 0 < nr) ->
+      bagrees_mat (beval (benv_std nr nc rsubs csubs cubem cv0 cubeflag blk mblk mflag) e) (List.length rsubs) nc
+        (mnth (b_rows (col_base_blocks nr nc rsubs csubs (cubem "weighted_squared_cube_counts" "column_bases"))))
+  | None => True
+  end) /\
+  (match src_ColumnSquaredBases_blocks_11 with
+  | Some e => forall nr nc rsubs csubs cubem cubeflag blk mblk mflag,
+      0 < nr ->
+      bagrees_mat (beval (benv_std nr nc rsubs csubs cubem cv0 cubeflag blk mblk mflag) e) (List.length rsubs) (List.length csubs)
+        (mnth (b_inter (col_base_blocks nr nc rsubs csubs (cubem "weighted_squared_cube_counts" "column_bases"))))
+  | None => True
+  end).
+Proof. exact (conj gen_ColumnSquaredBases_blocks_00 (conj gen_ColumnSquaredBases_blocks_01 (conj gen_ColumnSquaredBases_blocks_10 gen_ColumnSquaredBases_blocks_11))). Qed.
+Print Assumptions C02_gen_ColumnSquaredBases.
+
+(* SecondOrderMeasures.<RowUnweightedBases>.blocks: [0][0], [0][1], [1][0], [1][1] *)
+Theorem C02_gen_RowUnweightedBases :
+  (match src_RowUnweightedBases_blocks_00 with
+  | Some e => forall nr nc rsubs csubs cubem cubeflag blk mblk mflag rowbase,
+      bagrees_mat (beval (benv_std nr nc rsubs csubs cubem (cv1 "unweighted_cube_counts" "rows_base" (WVec nr (vnth rowbase))) cubeflag blk mblk mflag) e) nr nc
+        (mnth (b_base (row_ubase_blocks nr nc rsubs csubs (cubem "unweighted_cube_counts" "row_bases") rowbase)))
+  | None => True
+  end) /\
+  (match src_RowUnweightedBases_blocks_01 with
+  | Some e => forall nr nc rsubs csubs cubem cubeflag blk mblk mflag rowbase,
+      bagrees_mat (beval (benv_std nr nc rsubs csubs cubem (cv1 "unweighted_cube_counts" "rows_base" (WVec nr (vnth rowbase))) cubeflag blk mblk mflag) e) nr (List.length csubs)
+        (mnth (b_cols (row_ubase_blocks nr nc rsubs csubs (cubem "unweighted_cube_counts" "row_bases") rowbase)))
+  | None => True
+  end) /\
+  (match src_RowUnweightedBases_blocks_10 with
+  | Some e => forall nr nc rsubs csubs cubem cubeflag blk mblk mflag rowbase,
+      bagrees_mat (beval (benv_std nr nc rsubs csubs cubem (cv1 "unweighted_cube_counts" "rows_base" (WVec nr (vnth rowbase))) cubeflag blk mblk mflag) e) (List.length rsubs) nc
+        (mnth (b_rows (row_ubase_blocks nr nc rsubs csubs (cubem "unweighted_cube_counts" "row_bases") rowbase)))
+  | None => True
+  end) /\
+  (match src_RowUnweightedBases_blocks_11 with
+  | Some e => forall nr nc rsubs csubs cubem cubeflag blk mblk mflag rowbase,
+      0 < nc ->
+      bagrees_mat (beval (benv_std nr nc rsubs csubs cubem (cv1 "unweighted_cube_counts" "rows_base" (WVec nr (vnth rowbase))) cubeflag blk mblk mflag) e) (List.length rsubs) (List.length csubs)
+        (mnth (b_inter (row_ubase_blocks nr nc rsubs csubs (cubem "unweighted_cube_counts" "row_bases") rowbase)))
+  | None => True
+  end).
+Proof. exact (conj gen_RowUnweightedBases_blocks_00 (conj gen_RowUnweightedBases_blocks_01 (conj gen_RowUnweightedBases_blocks_10 gen_RowUnweightedBases_blocks_11))). Qed.
+Print Assumptions C02_gen_RowUnweightedBases.
+
+(* SecondOrderMeasures.<RowWeightedBases>.blocks: [0][0], [0][1], [1][0], [1][1] *)
+Theorem C02_gen_RowWeightedBases :
+  (match src_RowWeightedBases_blocks_00 with
+  | Some e => forall nr nc rsubs csubs cubem cubeflag blk mblk mflag,
+      bagrees_mat (beval (benv_std nr nc rsubs csubs cubem cv0 cubeflag blk mblk mflag) e) nr nc
+        (mnth (b_base (row_base_blocks nr nc rsubs csubs (cubem "weighted_cube_counts" "row_bases"))))
+  | None => True
+  end) /\
+  (match src_RowWeightedBases_blocks_01 with
+  | Some e => forall nr nc rsubs csubs cubem cubeflag blk mblk mflag,
+      (0 < List.length csubs -> 0 < nc) ->
+      bagrees_mat (beval (benv_std nr nc rsubs csubs cubem cv0 cubeflag blk mblk mflag) e) nr (List.length csubs)
+        (mnth (b_cols (row_base_blocks nr nc rsubs csubs (cubem "weighted_cube_counts" "row_bases"))))
+  | None => True
+  end) /\
+  (match src_RowWeightedBases_blocks_10 with
+  | Some e => forall nr nc rsubs csubs cubem cubeflag blk mblk mflag,
+      bagrees_mat (beval (benv_std nr nc rsubs csubs cubem cv0 cubeflag blk mblk mflag) e) (List.length rsubs) nc
+        (mnth (b_rows (row_base_blocks nr nc rsubs csubs (cubem "weighted_cube_counts" "row_bases"))))
+  | None => True
+  end) /\
+  (match src_RowWeightedBases_blocks_11 with
+  | Some e => forall nr nc rsubs csubs cubem cubeflag blk mblk mflag,
+      0 < nc ->
+      bagrees_mat (beval (benv_std nr nc rsubs csubs cubem cv0 cubeflag blk mblk mflag) e) (List.length rsubs) (List.length csubs)
+        (mnth (b_inter (row_base_blocks nr nc rsubs csubs (cubem "weighted_cube_counts" "row_bases"))))
+  | None => True
+  end).
+Proof. exact (conj gen_RowWeightedBases_blocks_00 (conj gen_RowWeightedBases_blocks_01 (conj gen_RowWeightedBases_blocks_10 gen_RowWeightedBases_blocks_11))). Qed.
+Print Assumptions C02_gen_RowWeightedBases.
+
+(* SecondOrderMeasures.<TableUnweightedBases>.blocks: [0][0], [0][1], [1][0], [1][1] *)
+Theorem C02_gen_TableUnweightedBases :
+  (match src_TableUnweightedBases_blocks_00 with
+  | Some e => forall nr nc rsubs csubs cubem cubeflag blk mblk mflag,
+      bagrees_mat (beval (benv_std nr nc rsubs csubs cubem cv0 cubeflag blk mblk mflag) e) nr nc
+        (mnth (b_base (table_base_blocks nr nc rsubs csubs (cubem "unweighted_cube_counts" "table_bases"))))
+  | None => True
+  end) /\
+  (match src_TableUnweightedBases_blocks_01 with
+  | Some e => forall nr nc rsubs csubs cubem cubeflag blk mblk mflag,
+      0 < nc ->
+      bagrees_mat (beval (benv_std nr nc rsubs csubs cubem cv0 cubeflag blk mblk mflag) e) nr (List.length csubs)
+        (mnth (b_cols (table_base_blocks nr nc rsubs csubs (cubem "unweighted_cube_counts" "table_bases"))))
+  | None => True
+  end) /\
+  (match src_TableUnweightedBases_blocks_10 with
+  | Some e => forall nr nc rsubs csubs cubem cubeflag blk mblk mflag,
+      0 < nr ->
+      bagrees_mat (beval (benv_std nr nc rsubs csubs cubem cv0 cubeflag blk mblk mflag) e) (List.length rsubs) nc
+        (mnth (b_rows (table_base_blocks nr nc rsubs csubs (cubem "unweighted_cube_counts" "table_bases"))))
+  | None => True
+  end) /\
+  (match src_TableUnweightedBases_blocks_11 with
+  | Some e => forall nr nc rsubs csubs cubem cubeflag blk mblk mflag,
+      0 < nr ->
+      0 < nc ->
+      bagrees_mat (beval (benv_std nr nc rsubs csubs cubem cv0 cubeflag blk mblk mflag) e) (List.length rsubs) (List.length csubs)
+        (mnth (b_inter (table_base_blocks nr nc rsubs csubs (cubem "unweighted_cube_counts" "table_bases"))))
+  | None => True
+  end).
+Proof. exact (conj gen_TableUnweightedBases_blocks_00 (conj gen_TableUnweightedBases_blocks_01 (conj gen_TableUnweightedBases_blocks_10 gen_TableUnweightedBases_blocks_11))). Qed.
+Print Assumptions C02_gen_TableUnweightedBases.
+
+(* SecondOrderMeasures.<TableWeightedBases>.blocks: [0][0], [0][1], [1][0], [1][1] *)
+Theorem C02_gen_TableWeightedBases :
+  (match src_TableWeightedBases_blocks_00 with
+  | Some e => forall nr nc rsubs csubs cubem cubeflag blk mblk mflag,
+      bagrees_mat (beval (benv_std nr nc rsubs csubs cubem cv0 cubeflag blk mblk mflag) e) nr nc
+        (mnth (b_base (table_base_blocks nr nc rsubs csubs (cubem "weighted_cube_counts" "table_bases"))))
+  | None => True
+  end) /\
+  (match src_TableWeightedBases_blocks_01 with
+  | Some e => forall nr nc rsubs csubs cubem cubeflag blk mblk mflag,
+      0 < nc ->
+      bagrees_mat (beval (benv_std nr nc rsubs csubs cubem cv0 cubeflag blk mblk mflag) e) nr (List.length csubs)
+        (mnth (b_cols (table_base_blocks nr nc rsubs csubs (cubem "weighted_cube_counts" "table_bases"))))
+  | None => True
+  end) /\
+  (match src_TableWeightedBases_blocks_10 with
+  | Some e => forall nr nc rsubs csubs cubem cubeflag blk mblk mflag,
+      0 < nr ->
+      bagrees_mat (beval (benv_std nr nc rsubs csubs cubem cv0 cubeflag blk mblk mflag) e) (List.length rsubs) nc
+        (mnth (b_rows (table_base_blocks nr nc rsubs csubs (cubem "weighted_cube_counts" "table_bases"))))
+  | None => True
+  end) /\
+  (match src_TableWeightedBases_blocks_11 with
+  | Some e => forall nr nc rsubs csubs cubem cubeflag blk mblk mflag,
+      0 < nr ->
+      0 < nc ->
+      bagrees_mat (beval (benv_std nr nc rsubs csubs cubem cv0 cubeflag blk mblk mflag) e) (List.length rsubs) (List.length csubs)
+        (mnth (b_inter (table_base_blocks nr nc rsubs csubs (cubem "weighted_cube_counts" "table_bases"))))
+  | None => True
+  end).
+Proof. exact (conj gen_TableWeightedBases_blocks_00 (conj gen_TableWeightedBases_blocks_01 (conj gen_TableWeightedBases_blocks_10 gen_TableWeightedBases_blocks_11))). Qed.
+Print Assumptions C02_gen_TableWeightedBases.
+
+(* rows_weighted_base / columns_weighted_base (_MarginWeightedBase): blocks[0] (base values), blocks[1] (subtotals), is_defined; `raise` = WErr *)
+Theorem C02_gen_margin_weighted_base :
+  (match src_RowsWeightedBase_blocks_0 with
+  | Some e => forall nr nc rsubs csubs cubem cubeflag blk mblk mflag margin,
+      (0 < nc ->
+       bagrees_vec (beval (benv_std nr nc rsubs csubs cubem (cv1 "weighted_cube_counts" "rows_base" (WVec nr (vnth margin))) cubeflag blk mblk mflag) e) nr
+         (vnth (fst (rows_margin_blocks nr rsubs (blocks_of (blk "row_weighted_bases")))))) /\
+      beval (benv_std nr nc rsubs csubs cubem (cv1 "weighted_cube_counts" "rows_base" WNone) cubeflag blk mblk mflag) e = WErr
+  | None => True
+  end) /\
+  (match src_RowsWeightedBase_blocks_1 with
+  | Some e => forall nr nc rsubs csubs cubem cubeflag blk mblk mflag margin,
+      (0 < nc ->
+       bagrees_vec (beval (benv_std nr nc rsubs csubs cubem (cv1 "weighted_cube_counts" "rows_base" (WVec nr (vnth margin))) cubeflag blk mblk mflag) e) (List.length rsubs)
+         (vnth (snd (rows_margin_blocks nr rsubs (blocks_of (blk "row_weighted_bases")))))) /\
+      beval (benv_std nr nc rsubs csubs cubem (cv1 "weighted_cube_counts" "rows_base" WNone) cubeflag blk mblk mflag) e = WErr
+  | None => True
+  end) /\
+  (match src_RowsWeightedBase_is_defined with
+  | Some e => forall nr nc rsubs csubs cubem cubeflag blk mblk mflag margin,
+      bceval (benv_std nr nc rsubs csubs cubem (cv1 "weighted_cube_counts" "rows_base" (WVec nr (vnth margin))) cubeflag blk mblk mflag) e = Some true /\
+      bceval (benv_std nr nc rsubs csubs cubem (cv1 "weighted_cube_counts" "rows_base" WNone) cubeflag blk mblk mflag) e = Some false
+  | None => True
+  end) /\
+  (match src_ColumnsWeightedBase_blocks_0 with
+  | Some e => forall nr nc rsubs csubs cubem cubeflag blk mblk mflag margin,
+      (0 < nr ->
+       bagrees_vec (beval (benv_std nr nc rsubs csubs cubem (cv1 "weighted_cube_counts" "columns_base" (WVec nc (vnth margin))) cubeflag blk mblk mflag) e) nc
+         (vnth (fst (cols_margin_blocks nc csubs (blocks_of (blk "column_weighted_bases")))))) /\
+      beval (benv_std nr nc rsubs csubs cubem (cv1 "weighted_cube_counts" "columns_base" WNone) cubeflag blk mblk mflag) e = WErr
+  | None => True
+  end) /\
+  (match src_ColumnsWeightedBase_blocks_1 with
+  | Some e => forall nr nc rsubs csubs cubem cubeflag blk mblk mflag margin,
+      (0 < nr ->
+       bagrees_vec (beval (benv_std nr nc rsubs csubs cubem (cv1 "weighted_cube_counts" "columns_base" (WVec nc (vnth margin))) cubeflag blk mblk mflag) e) (List.length csubs)
+         (vnth (snd (cols_margin_blocks nc csubs (blocks_of (blk "column_weighted_bases")))))) /\
+      beval (benv_std nr nc rsubs csubs cubem (cv1 "weighted_cube_counts" "columns_base" WNone) cubeflag blk mblk mflag) e = WErr
+  | None => True
+  end) /\
+  (match src_ColumnsWeightedBase_is_defined with
+  | Some e => forall nr nc rsubs csubs cubem cubeflag blk mblk mflag margin,
+      bceval (benv_std nr nc rsubs csubs cubem (cv1 "weighted_cube_counts" "columns_base" (WVec nc (vnth margin))) cubeflag blk mblk mflag) e = Some true /\
+      bceval (benv_std nr nc rsubs csubs cubem (cv1 "weighted_cube_counts" "columns_base" WNone) cubeflag blk mblk mflag) e = Some false
+  | None => True
+  end).
+Proof. exact (conj gen_RowsWeightedBase_blocks_0 (conj gen_RowsWeightedBase_blocks_1 (conj gen_RowsWeightedBase_is_defined (conj gen_ColumnsWeightedBase_blocks_0 (conj gen_ColumnsWeightedBase_blocks_1 gen_ColumnsWeightedBase_is_defined))))). Qed.
+Print Assumptions C02_gen_margin_weighted_base.
+
+(* rows_unweighted_base / columns_unweighted_base (_MarginUnweightedBase) *)
+Theorem C02_gen_margin_unweighted_base :
+  (match src_RowsUnweightedBase_blocks_0 with
+  | Some e => forall nr nc rsubs csubs cubem cubeflag blk mblk mflag,
+      (mflag "column_comparable_counts" "is_defined" = true -> 0 < nc ->
+       bagrees_vec (beval (benv_std nr nc rsubs csubs cubem cv0 cubeflag blk mblk mflag) e) nr
+         (vnth (fst (rows_margin_blocks nr rsubs (blocks_of (blk "row_unweighted_bases")))))) /\
+      (mflag "column_comparable_counts" "is_defined" = false -> beval (benv_std nr nc rsubs csubs cubem cv0 cubeflag blk mblk mflag) e = WErr)
+  | None => True
+  end) /\
+  (match src_RowsUnweightedBase_blocks_1 with
+  | Some e => forall nr nc rsubs csubs cubem cubeflag blk mblk mflag,
+      (mflag "column_comparable_counts" "is_defined" = true -> 0 < nc ->
+       bagrees_vec (beval (benv_std nr nc rsubs csubs cubem cv0 cubeflag blk mblk mflag) e) (List.length rsubs)
+         (vnth (snd (rows_margin_blocks nr rsubs (blocks_of (blk "row_unweighted_bases")))))) /\
+      (mflag "column_comparable_counts" "is_defined" = false -> beval (benv_std nr nc rsubs csubs cubem cv0 cubeflag blk mblk mflag) e = WErr)
+  | None => True
+  end) /\
+  (match src_RowsUnweightedBase_is_defined with
+  | Some e => forall nr nc rsubs csubs cubem cubeflag blk mblk mflag,
+      bceval (benv_std nr nc rsubs csubs cubem cv0 cubeflag blk mblk mflag) e = Some (mflag "column_comparable_counts" "is_defined")
+  | None => True
+  end) /\
+  (match src_ColumnsUnweightedBase_blocks_0 with
+  | Some e => forall nr nc rsubs csubs cubem cubeflag blk mblk mflag,
+      (mflag "row_comparable_counts" "is_defined" = true -> 0 < nr ->
+       bagrees_vec (beval (benv_std nr nc rsubs csubs cubem cv0 cubeflag blk mblk mflag) e) nc
+         (vnth (fst (cols_margin_blocks nc csubs (blocks_of (blk "column_unweighted_bases")))))) /\
+      (mflag "row_comparable_counts" "is_defined" = false -> beval (benv_std nr nc rsubs csubs cubem cv0 cubeflag blk mblk mflag) e = WErr)
+  | None => True
+  end) /\
+  (match src_ColumnsUnweightedBase_blocks_1 with
+  | Some e => forall nr nc rsubs csubs cubem cubeflag blk mblk mflag,
+      (mflag "row_comparable_counts" "is_defined" = true -> 0 < nr ->
+       bagrees_vec (beval (benv_std nr nc rsubs csubs cubem cv0 cubeflag blk mblk mflag) e) (List.length csubs)
+         (vnth (snd (cols_margin_blocks nc csubs (blocks_of (blk "column_unweighted_bases")))))) /\
+      (mflag "row_comparable_counts" "is_defined" = false -> beval (benv_std nr nc rsubs csubs cubem cv0 cubeflag blk mblk mflag) e = WErr)
+  | None => True
+  end) /\
+  (match src_ColumnsUnweightedBase_is_defined with
+  | Some e => forall nr nc rsubs csubs cubem cubeflag blk mblk mflag,
+      bceval (benv_std nr nc rsubs csubs cubem cv0 cubeflag blk mblk mflag) e = Some (mflag "row_comparable_counts" "is_defined")
+  | None => True
+  end).
+Proof. exact (conj gen_RowsUnweightedBase_blocks_0 (conj gen_RowsUnweightedBase_blocks_1 (conj gen_RowsUnweightedBase_is_defined (conj gen_ColumnsUnweightedBase_blocks_0 (conj gen_ColumnsUnweightedBase_blocks_1 gen_ColumnsUnweightedBase_is_defined))))). Qed.
+Print Assumptions C02_gen_margin_unweighted_base.
+
+(* columns_squared_base (_MarginSquaredBase) *)
+Theorem C02_gen_margin_squared_base :
+  (match src_ColumnsSquaredBase_blocks_0 with
+  | Some e => forall nr nc rsubs csubs cubem cubeflag blk mblk mflag,
+      0 < nr ->
+      bagrees_vec (beval (benv_std nr nc rsubs csubs cubem cv0 cubeflag blk mblk mflag) e) nc
+        (vnth (fst (cols_margin_blocks nc csubs (blocks_of (blk "column_squared_bases")))))
+  | None => True
+  end) /\
+  (match src_ColumnsSquaredBase_blocks_1 with
+  | Some e => forall nr nc rsubs csubs cubem cubeflag blk mblk mflag,
+      0 < nr ->
+      bagrees_vec (beval (benv_std nr nc rsubs csubs cubem cv0 cubeflag blk mblk mflag) e) (List.length csubs)
+        (vnth (snd (cols_margin_blocks nc csubs (blocks_of (blk "column_squared_bases")))))
+  | None => True
+  end) /\
+  (match src_ColumnsSquaredBase_is_defined with
+  | Some e => forall nr nc rsubs csubs cubem cubeflag blk mblk mflag,
+      bceval (benv_std nr nc rsubs csubs cubem cv0 cubeflag blk mblk mflag) e = Some (mflag "column_squared_bases" "is_defined")
+  | None => True
+  end).
+Proof. exact (conj gen_ColumnsSquaredBase_blocks_0 (conj gen_ColumnsSquaredBase_blocks_1 gen_ColumnsSquaredBase_is_defined)). Qed.
+Print Assumptions C02_gen_margin_squared_base.
+
+(* rows_/columns_table_(un)weighted_base (_MarginTableBase): the cube measure's 1-D table base, its first value repeated for the subtotals *)
+Theorem C02_gen_margin_table_base :
+  (match src_RowsTableWeightedBase_blocks_0 with
+  | Some e => forall nr nc rsubs csubs cubem cubeflag blk mblk mflag tbase,
+      bagrees_vec (beval (benv_std nr nc rsubs csubs cubem (cv1 "weighted_cube_counts" "rows_table_base" (WVec nr (vnth tbase))) cubeflag blk mblk mflag) e) nr
+        (vnth (fst (margin_table_blocks tbase (List.length rsubs)))) /\
+      beval (benv_std nr nc rsubs csubs cubem (cv1 "weighted_cube_counts" "rows_table_base" WNone) cubeflag blk mblk mflag) e = WErr
+  | None => True
+  end) /\
+  (match src_RowsTableWeightedBase_blocks_1 with
+  | Some e => forall nr nc rsubs csubs cubem cubeflag blk mblk mflag tbase,
+      (0 < nr ->
+       bagrees_vec (beval (benv_std nr nc rsubs csubs cubem (cv1 "weighted_cube_counts" "rows_table_base" (WVec nr (vnth tbase))) cubeflag blk mblk mflag) e) (List.length rsubs)
+         (vnth (snd (margin_table_blocks tbase (List.length rsubs))))) /\
+      beval (benv_std nr nc rsubs csubs cubem (cv1 "weighted_cube_counts" "rows_table_base" WNone) cubeflag blk mblk mflag) e = WErr
+  | None => True
+  end) /\
+  (match src_RowsTableWeightedBase_is_defined with
+  | Some e => forall nr nc rsubs csubs cubem cubeflag blk mblk mflag tbase,
+      bceval (benv_std nr nc rsubs csubs cubem (cv1 "weighted_cube_counts" "rows_table_base" (WVec nr (vnth tbase))) cubeflag blk mblk mflag) e = Some true /\
+      bceval (benv_std nr nc rsubs csubs cubem (cv1 "weighted_cube_counts" "rows_table_base" WNone) cubeflag blk mblk mflag) e = Some false
+  | None => True
+  end) /\
+  (match src_ColumnsTableWeightedBase_blocks_0 with
+  | Some e => forall nr nc rsubs csubs cubem cubeflag blk mblk mflag tbase,
+      bagrees_vec (beval (benv_std nr nc rsubs csubs cubem (cv1 "weighted_cube_counts" "columns_table_base" (WVec nc (vnth tbase))) cubeflag blk mblk mflag) e) nc
+        (vnth (fst (margin_table_blocks tbase (List.length csubs)))) /\
+      beval (benv_std nr nc rsubs csubs cubem (cv1 "weighted_cube_counts" "columns_table_base" WNone) cubeflag blk mblk mflag) e = WErr
+  | None => True
+  end) /\
+  (match src_ColumnsTableWeightedBase_blocks_1 with
+  | Some e => forall nr nc rsubs csubs cubem cubeflag blk mblk mflag tbase,
+      (0 < nc ->
+       bagrees_vec (beval (benv_std nr nc rsubs csubs cubem (cv1 "weighted_cube_counts" "columns_table_base" (WVec nc (vnth tbase))) cubeflag blk mblk mflag) e) (List.length csubs)
+         (vnth (snd (margin_table_blocks tbase (List.length csubs))))) /\
+      beval (benv_std nr nc rsubs csubs cubem (cv1 "weighted_cube_counts" "columns_table_base" WNone) cubeflag blk mblk mflag) e = WErr
+  | None => True
+  end) /\
+  (match src_ColumnsTableWeightedBase_is_defined with
+  | Some e => forall nr nc rsubs csubs cubem cubeflag blk mblk mflag tbase,
+      bceval (benv_std nr nc rsubs csubs cubem (cv1 "weighted_cube_counts" "columns_table_base" (WVec nc (vnth tbase))) cubeflag blk mblk mflag) e = Some true /\
+      bceval (benv_std nr nc rsubs csubs cubem (cv1 "weighted_cube_counts" "columns_table_base" WNone) cubeflag blk mblk mflag) e = Some false
+  | None => True
+  end) /\
+  (match src_RowsTableUnweightedBase_blocks_0 with
+  | Some e => forall nr nc rsubs csubs cubem cubeflag blk mblk mflag tbase,
+      bagrees_vec (beval (benv_std nr nc rsubs csubs cubem (cv1 "unweighted_cube_counts" "rows_table_base" (WVec nr (vnth tbase))) cubeflag blk mblk mflag) e) nr
+        (vnth (fst (margin_table_blocks tbase (List.length rsubs)))) /\
+      beval (benv_std nr nc rsubs csubs cubem (cv1 "unweighted_cube_counts" "rows_table_base" WNone) cubeflag blk mblk mflag) e = WErr
+  | None => True
+  end) /\
+  (match src_RowsTableUnweightedBase_blocks_1 with
+  | Some e => forall nr nc rsubs csubs cubem cubeflag blk mblk mflag tbase,
+      (0 < nr ->
+       bagrees_vec (beval (benv_std nr nc rsubs csubs cubem (cv1 "unweighted_cube_counts" "rows_table_base" (WVec nr (vnth tbase))) cubeflag blk mblk mflag) e) (List.length rsubs)
+         (vnth (snd (margin_table_blocks tbase (List.length rsubs))))) /\
+      beval (benv_std nr nc rsubs csubs cubem (cv1 "unweighted_cube_counts" "rows_table_base" WNone) cubeflag blk mblk mflag) e = WErr
+  | None => True
+  end) /\
+  (match src_RowsTableUnweightedBase_is_defined with
+  | Some e => forall nr nc rsubs csubs cubem cubeflag blk mblk mflag tbase,
+      bceval (benv_std nr nc rsubs csubs cubem (cv1 "unweighted_cube_counts" "rows_table_base" (WVec nr (vnth tbase))) cubeflag blk mblk mflag) e = Some true /\
+      bceval (benv_std nr nc rsubs csubs cubem (cv1 "unweighted_cube_counts" "rows_table_base" WNone) cubeflag blk mblk mflag) e = Some false
+  | None => True
+  end) /\
+  (match src_ColumnsTableUnweightedBase_blocks_0 with
+  | Some e => forall nr nc rsubs csubs cubem cubeflag blk mblk mflag tbase,
+      bagrees_vec (beval (benv_std nr nc rsubs csubs cubem (cv1 "unweighted_cube_counts" "columns_table_base" (WVec nc (vnth tbase))) cubeflag blk mblk mflag) e) nc
+        (vnth (fst (margin_table_blocks tbase (List.length csubs)))) /\
+      beval (benv_std nr nc rsubs csubs cubem (cv1 "unweighted_cube_counts" "columns_table_base" WNone) cubeflag blk mblk mflag) e = WErr
+  | None => True
+  end) /\
+  (match src_ColumnsTableUnweightedBase_blocks_1 with
+  | Some e => forall nr nc rsubs csubs cubem cubeflag blk mblk mflag tbase,
+      (0 < nc ->
+       bagrees_vec (beval (benv_std nr nc rsubs csubs cubem (cv1 "unweighted_cube_counts" "columns_table_base" (WVec nc (vnth tbase))) cubeflag blk mblk mflag) e) (List.length csubs)
+         (vnth (snd (margin_table_blocks tbase (List.length csubs))))) /\
+      beval (benv_std nr nc rsubs csubs cubem (cv1 "unweighted_cube_counts" "columns_table_base" WNone) cubeflag blk mblk mflag) e = WErr
+  | None => True
+  end) /\
+  (match src_ColumnsTableUnweightedBase_is_defined with
+  | Some e => forall nr nc rsubs csubs cubem cubeflag blk mblk mflag tbase,
+      bceval (benv_std nr nc rsubs csubs cubem (cv1 "unweighted_cube_counts" "columns_table_base" (WVec nc (vnth tbase))) cubeflag blk mblk mflag) e = Some true /\
+      bceval (benv_std nr nc rsubs csubs cubem (cv1 "unweighted_cube_counts" "columns_table_base" WNone) cubeflag blk mblk mflag) e = Some false
+  | None => True
+  end).
+Proof. exact (conj gen_RowsTableWeightedBase_blocks_0 (conj gen_RowsTableWeightedBase_blocks_1 (conj gen_RowsTableWeightedBase_is_defined (conj gen_ColumnsTableWeightedBase_blocks_0 (conj gen_ColumnsTableWeightedBase_blocks_1 (conj gen_ColumnsTableWeightedBase_is_defined (conj gen_RowsTableUnweightedBase_blocks_0 (conj gen_RowsTableUnweightedBase_blocks_1 (conj gen_RowsTableUnweightedBase_is_defined (conj gen_ColumnsTableUnweightedBase_blocks_0 (conj gen_ColumnsTableUnweightedBase_blocks_1 gen_ColumnsTableUnweightedBase_is_defined))))))))))). Qed.
+Print Assumptions C02_gen_margin_table_base.
+
+(* rows_/columns_table_proportion (_MarginTableProportion): summed COUNT blocks over the margin table base *)
+Theorem C02_gen_margin_table_proportion :
+  (match src_RowsTableProportion_blocks_0 with
+  | Some e => forall nr nc rsubs csubs cubem cubeflag blk mflag den0 den1,
+      bagrees_vec (beval (benv_std nr nc rsubs csubs cubem cv0 cubeflag blk
+                           (fun m k => if String.eqb m "rows_table_weighted_base" then match k with 0 => WVec nr (vnth den0) | _ => WVec (List.length rsubs) (vnth den1) end else WErr)
+                           mflag) e) nr
+        (vnth (fst (rows_table_prop_blocks nr nc rsubs (blocks_of (blk "weighted_counts")) (den0, den1))))
+  | None => True
+  end) /\
+  (match src_RowsTableProportion_blocks_1 with
+  | Some e => forall nr nc rsubs csubs cubem cubeflag blk mflag den0 den1,
+      bagrees_vec (beval (benv_std nr nc rsubs csubs cubem cv0 cubeflag blk
+                           (fun m k => if String.eqb m "rows_table_weighted_base" then match k with 0 => WVec nr (vnth den0) | _ => WVec (List.length rsubs) (vnth den1) end else WErr)
+                           mflag) e) (List.length rsubs)
+        (vnth (snd (rows_table_prop_blocks nr nc rsubs (blocks_of (blk "weighted_counts")) (den0, den1))))
+  | None => True
+  end) /\
+  (match src_RowsTableProportion_is_defined with
+  | Some e => forall nr nc rsubs csubs cubem cubeflag blk mblk mflag,
+      bceval (benv_std nr nc rsubs csubs cubem cv0 cubeflag blk mblk mflag) e = Some (mflag "column_comparable_counts" "is_defined")
+  | None => True
+  end) /\
+  (match src_ColumnsTableProportion_blocks_0 with
+  | Some e => forall nr nc rsubs csubs cubem cubeflag blk mflag den0 den1,
+      bagrees_vec (beval (benv_std nr nc rsubs csubs cubem cv0 cubeflag blk
+                           (fun m k => if String.eqb m "columns_table_weighted_base" then match k with 0 => WVec nc (vnth den0) | _ => WVec (List.length csubs) (vnth den1) end else WErr)
+                           mflag) e) nc
+        (vnth (fst (cols_table_prop_blocks nr nc csubs (blocks_of (blk "weighted_counts")) (den0, den1))))
+  | None => True
+  end) /\
+  (match src_ColumnsTableProportion_blocks_1 with
+  | Some e => forall nr nc rsubs csubs cubem cubeflag blk mflag den0 den1,
+      bagrees_vec (beval (benv_std nr nc rsubs csubs cubem cv0 cubeflag blk
+                           (fun m k => if String.eqb m "columns_table_weighted_base" then match k with 0 => WVec nc (vnth den0) | _ => WVec (List.length csubs) (vnth den1) end else WErr)
+                           mflag) e) (List.length csubs)
+        (vnth (snd (cols_table_prop_blocks nr nc csubs (blocks_of (blk "weighted_counts")) (den0, den1))))
+  | None => True
+  end) /\
+  (match src_ColumnsTableProportion_is_defined with
+  | Some e => forall nr nc rsubs csubs cubem cubeflag blk mblk mflag,
+      bceval (benv_std nr nc rsubs csubs cubem cv0 cubeflag blk mblk mflag) e = Some (mflag "row_comparable_counts" "is_defined")
+  | None => True
+  end).
+Proof. exact (conj gen_RowsTableProportion_blocks_0 (conj gen_RowsTableProportion_blocks_1 (conj gen_RowsTableProportion_is_defined (conj gen_ColumnsTableProportion_blocks_0 (conj gen_ColumnsTableProportion_blocks_1 gen_ColumnsTableProportion_is_defined))))). Qed.
+Print Assumptions C02_gen_margin_table_proportion.
+
+(* table_(un)weighted_base (_TableBase): value, is_defined *)
+Theorem C02_gen_scalar_table_base :
+  (match src_TableWeightedBase_value with
+  | Some e => forall nr nc rsubs csubs cubem cubeflag blk mblk mflag tb,
+      bagrees_scal (beval (benv_std nr nc rsubs csubs cubem (cv1 "weighted_cube_counts" "table_base" (WScal tb)) cubeflag blk mblk mflag) e) tb /\
+      beval (benv_std nr nc rsubs csubs cubem (cv1 "weighted_cube_counts" "table_base" WNone) cubeflag blk mblk mflag) e = WErr
+  | None => True
+  end) /\
+  (match src_TableWeightedBase_is_defined with
+  | Some e => forall nr nc rsubs csubs cubem cubeflag blk mblk mflag tb,
+      bceval (benv_std nr nc rsubs csubs cubem (cv1 "weighted_cube_counts" "table_base" (WScal tb)) cubeflag blk mblk mflag) e = Some true /\
+      bceval (benv_std nr nc rsubs csubs cubem (cv1 "weighted_cube_counts" "table_base" WNone) cubeflag blk mblk mflag) e = Some false
+  | None => True
+  end) /\
+  (match src_TableUnweightedBase_value with
+  | Some e => forall nr nc rsubs csubs cubem cubeflag blk mblk mflag tb,
+      bagrees_scal (beval (benv_std nr nc rsubs csubs cubem (cv1 "unweighted_cube_counts" "table_base" (WScal tb)) cubeflag blk mblk mflag) e) tb /\
+      beval (benv_std nr nc rsubs csubs cubem (cv1 "unweighted_cube_counts" "table_base" WNone) cubeflag blk mblk mflag) e = WErr
+  | None => True
+  end) /\
+  (match src_TableUnweightedBase_is_defined with
+  | Some e => forall nr nc rsubs csubs cubem cubeflag blk mblk mflag tb,
+      bceval (benv_std nr nc rsubs csubs cubem (cv1 "unweighted_cube_counts" "table_base" (WScal tb)) cubeflag blk mblk mflag) e = Some true /\
+      bceval (benv_std nr nc rsubs csubs cubem (cv1 "unweighted_cube_counts" "table_base" WNone) cubeflag blk mblk mflag) e = Some false
+  | None => True
+  end).
+Proof. exact (conj gen_TableWeightedBase_value (conj gen_TableWeightedBase_is_defined (conj gen_TableUnweightedBase_value gen_TableUnweightedBase_is_defined))). Qed.
+Print Assumptions C02_gen_scalar_table_base.
+
+(* [min, max] of the table bases of the base block (np.min / np.max of an empty array raise) *)
+Theorem C02_gen_table_bases_range :
+  (match src_TableWeightedBasesRange_value with
+  | Some e => forall nr nc rsubs csubs cubem cubeflag blk mblk mflag,
+      0 < nr -> 0 < nc ->
+      bagrees_vec (beval (benv_std nr nc rsubs csubs cubem cv0 cubeflag blk mblk mflag) e) 2
+        (fun k => match k with
+                  | 0 => fst (bases_range (tab2 nr nc (mnth (cubem "weighted_cube_counts" "table_bases"))))
+                  | _ => snd (bases_range (tab2 nr nc (mnth (cubem "weighted_cube_counts" "table_bases"))))
+                  end)
+  | None => True
+  end) /\
+  (match src_TableUnweightedBasesRange_value with
+  | Some e => forall nr nc rsubs csubs cubem cubeflag blk mblk mflag,
+      0 < nr -> 0 < nc ->
+      bagrees_vec (beval (benv_std nr nc rsubs csubs cubem cv0 cubeflag blk mblk mflag) e) 2
+        (fun k => match k with
+                  | 0 => fst (bases_range (tab2 nr nc (mnth (cubem "unweighted_cube_counts" "table_bases"))))
+                  | _ => snd (bases_range (tab2 nr nc (mnth (cubem "unweighted_cube_counts" "table_bases"))))
+                  end)
+  | None => True
+  end).
+Proof. exact (conj gen_TableWeightedBasesRange_value gen_TableUnweightedBasesRange_value). Qed.
+Print Assumptions C02_gen_table_bases_range.
+
+(* strand unweighted_bases / weighted_bases: base values, subtotal values (the scalar table base, broadcast; the empty sum subtotals when there is none), range *)
+Theorem C02_gen_stripe_bases :
+  (match ssrc_UnweightedBases_base_values with
+  | Some e => forall n subs bases tbv,
+      bagrees_vec (beval (benv_strand n subs (fun c a => if String.eqb c "unweighted_cube_counts" then (if String.eqb a "bases" then WVec n (vnth bases) else if String.eqb a "table_base" then tbv else WErr) else WErr)) e) n (vnth bases)
+  | None => True
+  end) /\
+  (match ssrc_UnweightedBases_subtotal_values with
+  | Some e => forall n subs bases tbv tb,
+      (0 < List.length subs -> tbv = WScal tb) ->
+      bagrees_vec (beval (benv_strand n subs (fun c a => if String.eqb c "unweighted_cube_counts" then (if String.eqb a "bases" then WVec n (vnth bases) else if String.eqb a "table_base" then tbv else WErr) else WErr)) e) (List.length subs)
+        (vnth (strand_base_subtotals tb subs))
+  | None => True
+  end) /\
+  (match ssrc_UnweightedBases_table_base_range with
+  | Some e => forall n subs bases tbv,
+      0 < n ->
+      bagrees_vec (beval (benv_strand n subs (fun c a => if String.eqb c "unweighted_cube_counts" then (if String.eqb a "bases" then WVec n (vnth bases) else if String.eqb a "table_base" then tbv else WErr) else WErr)) e) 2
+        (fun k => match k with 0 => xmin_list (tab n (vnth bases)) | _ => xmax_list (tab n (vnth bases)) end)
+  | None => True
+  end) /\
+  (match ssrc_WeightedBases_base_values with
+  | Some e => forall n subs bases tbv,
+      bagrees_vec (beval (benv_strand n subs (fun c a => if String.eqb c "weighted_cube_counts" then (if String.eqb a "bases" then WVec n (vnth bases) else if String.eqb a "table_base" then tbv else WErr) else WErr)) e) n (vnth bases)
+  | None => True
+  end) /\
+  (match ssrc_WeightedBases_subtotal_values with
+  | Some e => forall n subs bases tbv tb,
+      (0 < List.length subs -> tbv = WScal tb) ->
+      bagrees_vec (beval (benv_strand n subs (fun c a => if String.eqb c "weighted_cube_counts" then (if String.eqb a "bases" then WVec n (vnth bases) else if String.eqb a "table_base" then tbv else WErr) else WErr)) e) (List.length subs)
+        (vnth (strand_base_subtotals tb subs))
+  | None => True
+  end) /\
+  (match ssrc_WeightedBases_table_margin_range with
+  | Some e => forall n subs bases tbv,
+      0 < n ->
+      bagrees_vec (beval (benv_strand n subs (fun c a => if String.eqb c "weighted_cube_counts" then (if String.eqb a "bases" then WVec n (vnth bases) else if String.eqb a "table_base" then tbv else WErr) else WErr)) e) 2
+        (fun k => match k with 0 => xmin_list (tab n (vnth bases)) | _ => xmax_list (tab n (vnth bases)) end)
+  | None => True
+  end).
+Proof. exact (conj gen_stripe_UnweightedBases_base_values (conj gen_stripe_UnweightedBases_subtotal_values (conj gen_stripe_UnweightedBases_table_base_range (conj gen_stripe_WeightedBases_base_values (conj gen_stripe_WeightedBases_subtotal_values gen_stripe_WeightedBases_table_margin_range))))). Qed.
+Print Assumptions C02_gen_stripe_bases.
+
+(* MinBaseSizeMask.row_mask / column_mask / table_mask: cell = 1 iff [mask_cell] (STRICTLY below the threshold) of the slice's UNWEIGHTED base of that direction *)
+Theorem C02_gen_MinBaseSizeMask :
+  (match src_MinBaseSizeMask_row_mask with
+  | Some e => forall nr nc attr size,
+      bagrees_mat (beval (benv_mask nr nc attr size) e) nr nc
+        (fun i j => if mask_cell (mnth (attr "row_unweighted_bases") i j) size then Fin 1%Q else Fin 0%Q)
+  | None => True
+  end) /\
+  (match src_MinBaseSizeMask_column_mask with
+  | Some e => forall nr nc attr size,
+      bagrees_mat (beval (benv_mask nr nc attr size) e) nr nc
+        (fun i j => if mask_cell (mnth (attr "column_unweighted_bases") i j) size then Fin 1%Q else Fin 0%Q)
+  | None => True
+  end) /\
+  (match src_MinBaseSizeMask_table_mask with
+  | Some e => forall nr nc attr size,
+      bagrees_mat (beval (benv_mask nr nc attr size) e) nr nc
+        (fun i j => if mask_cell (mnth (attr "table_unweighted_bases") i j) size then Fin 1%Q else Fin 0%Q)
+  | None => True
+  end).
+Proof. exact (conj gen_MinBaseSizeMask_row_mask (conj gen_MinBaseSizeMask_column_mask gen_MinBaseSizeMask_table_mask)). Qed.
+Print Assumptions C02_gen_MinBaseSizeMask.
+
+
+(* ---- what the blocks MEAN (Proofs/BaseBlocksProofs.v), for every base matrix over xq ------------ *)
+(* the column base of a cell of a subtotal ROW is the column base of its column ... *)
+Theorem C02_subtotal_row_has_column_base nr nc rsubs csubs cb k j i :
+  col_constant nr cb -> k < List.length rsubs -> j < nc -> i < nr ->
+  mnth (b_rows (col_base_blocks nr nc rsubs csubs cb)) k j = mnth cb i j.
+Proof. exact (col_base_subtotal_row nr nc rsubs csubs cb k j i). Qed.
+Print Assumptions C02_subtotal_row_has_column_base.
+
+(* ... of a subtotal COLUMN without subtrahends the SUM of the column bases of its addend columns
+   (the base of the merged category: C04_merge_col_column_bases), NaN for a difference ... *)
+Theorem C02_subtotal_column_adds_column_bases nr nc rsubs csubs cb i l :
+  i < nr -> l < List.length csubs ->
+  (s_sub (nth l csubs nosub) = [] ->
+   mnth (b_cols (col_base_blocks nr nc rsubs csubs cb)) i l
+   =x= xsum (map (fun j => mnth cb i j) (s_add (nth l csubs nosub)))) /\
+  (s_sub (nth l csubs nosub) <> [] ->
+   mnth (b_cols (col_base_blocks nr nc rsubs csubs cb)) i l = NaN).
+Proof.
+  exact (fun Hi Hl => conj (col_base_subtotal_col_sum nr nc rsubs csubs cb i l Hi Hl)
+                           (col_base_subtotal_col_diff nr nc rsubs csubs cb i l Hi Hl)).
+Qed.
+Print Assumptions C02_subtotal_column_adds_column_bases.
+
+(* ... and an intersection has the column base of its subtotal column *)
+Theorem C02_intersection_has_column_base nr nc rsubs csubs cb k l i :
+  col_constant nr cb -> k < List.length rsubs -> l < List.length csubs -> i < nr ->
+  mnth (b_inter (col_base_blocks nr nc rsubs csubs cb)) k l
+  = mnth (b_cols (col_base_blocks nr nc rsubs csubs cb)) i l.
+Proof. exact (col_base_intersection nr nc rsubs csubs cb k l i). Qed.
+Print Assumptions C02_intersection_has_column_base.
+
+(* mirror image: row bases *)
+Theorem C02_subtotal_column_has_row_base nr nc rsubs csubs rb i l j :
+  row_constant nc rb -> i < nr -> l < List.length csubs -> j < nc ->
+  mnth (b_cols (row_base_blocks nr nc rsubs csubs rb)) i l = mnth rb i j.
+Proof. exact (row_base_subtotal_col nr nc rsubs csubs rb i l j). Qed.
+Print Assumptions C02_subtotal_column_has_row_base.
+
+Theorem C02_subtotal_row_adds_row_bases nr nc rsubs csubs rb k j :
+  k < List.length rsubs -> j < nc ->
+  (s_sub (nth k rsubs nosub) = [] ->
+   mnth (b_rows (row_base_blocks nr nc rsubs csubs rb)) k j
+   =x= xsum (map (fun i => mnth rb i j) (s_add (nth k rsubs nosub)))) /\
+  (s_sub (nth k rsubs nosub) <> [] ->
+   mnth (b_rows (row_base_blocks nr nc rsubs csubs rb)) k j = NaN).
+Proof.
+  exact (fun Hk Hj => conj (row_base_subtotal_row_sum nr nc rsubs csubs rb k j Hk Hj)
+                           (row_base_subtotal_row_diff nr nc rsubs csubs rb k j Hk Hj)).
+Qed.
+Print Assumptions C02_subtotal_row_adds_row_bases.
+
+Theorem C02_intersection_has_row_base nr nc rsubs csubs rb k l j :
+  row_constant nc rb -> k < List.length rsubs -> l < List.length csubs -> j < nc ->
+  mnth (b_inter (row_base_blocks nr nc rsubs csubs rb)) k l
+  = mnth (b_rows (row_base_blocks nr nc rsubs csubs rb)) k j.
+Proof. exact (row_base_intersection nr nc rsubs csubs rb k l j). Qed.
+Print Assumptions C02_intersection_has_row_base.
+
+(* every inserted cell of the table bases has the table base (one number when both dimensions are
+   categorical -- the only case in which both can carry subtotals) *)
+Theorem C02_inserted_cells_have_table_base nr nc rsubs csubs tb x i j k l :
+  (forall i j, i < nr -> j < nc -> mnth tb i j = x) ->
+  i < nr -> j < nc -> k < List.length rsubs -> l < List.length csubs ->
+  mnth (b_cols (table_base_blocks nr nc rsubs csubs tb)) i l = x /\
+  mnth (b_rows (table_base_blocks nr nc rsubs csubs tb)) k j = x /\
+  mnth (b_inter (table_base_blocks nr nc rsubs csubs tb)) k l = x.
+Proof. exact (table_base_constant nr nc rsubs csubs tb x i j k l). Qed.
+Print Assumptions C02_inserted_cells_have_table_base.
+
+(* the UNWEIGHTED column / row bases read the cube measure's 1-D margin: the same blocks as soon as
+   that margin is row 0 / column 0 of the 2-D base ... *)
+Theorem C02_unweighted_column_bases_blocks nr nc rsubs csubs cb columns_base :
+  (0 < List.length rsubs -> forall j, j < nc -> vnth columns_base j = mnth cb 0 j) ->
+  b_base (col_ubase_blocks nr nc rsubs csubs cb columns_base) = b_base (col_base_blocks nr nc rsubs csubs cb) /\
+  b_cols (col_ubase_blocks nr nc rsubs csubs cb columns_base) = b_cols (col_base_blocks nr nc rsubs csubs cb) /\
+  b_inter (col_ubase_blocks nr nc rsubs csubs cb columns_base) = b_inter (col_base_blocks nr nc rsubs csubs cb) /\
+  forall k j, k < List.length rsubs -> j < nc ->
+    mnth (b_rows (col_ubase_blocks nr nc rsubs csubs cb columns_base)) k j
+    = mnth (b_rows (col_base_blocks nr nc rsubs csubs cb)) k j.
+Proof. exact (col_ubase_is_col_base nr nc rsubs csubs cb columns_base). Qed.
+Print Assumptions C02_unweighted_column_bases_blocks.
+
+Theorem C02_unweighted_row_bases_blocks nr nc rsubs csubs rb rows_base :
+  (0 < List.length csubs -> forall i, i < nr -> vnth rows_base i = mnth rb i 0) ->
+  b_base (row_ubase_blocks nr nc rsubs csubs rb rows_base) = b_base (row_base_blocks nr nc rsubs csubs rb) /\
+  b_rows (row_ubase_blocks nr nc rsubs csubs rb rows_base) = b_rows (row_base_blocks nr nc rsubs csubs rb) /\
+  b_inter (row_ubase_blocks nr nc rsubs csubs rb rows_base) = b_inter (row_base_blocks nr nc rsubs csubs rb) /\
+  forall i l, i < nr -> l < List.length csubs ->
+    mnth (b_cols (row_ubase_blocks nr nc rsubs csubs rb rows_base)) i l
+    = mnth (b_cols (row_base_blocks nr nc rsubs csubs rb)) i l.
+Proof. exact (row_ubase_is_row_base nr nc rsubs csubs rb rows_base). Qed.
+Print Assumptions C02_unweighted_row_bases_blocks.
+
+(* ... which the margins of Model/CubeCounts.v are, and its column (row) bases do not depend on the
+   row (column) when the rows (columns) dimension is categorical -- the hypotheses above hold for the
+   bases the theorems at the top of this file are about *)
+Theorem C02_model_bases_fit V nr nc sr sc rc cc :
+  col_constant nr (tab2 nr nc (column_bases_of V nr sr CCat cc)) /\
+  row_constant nc (tab2 nr nc (row_bases_of V nc sc rc CCat)) /\
+  (forall f j, 0 < nr -> j < nc -> columns_base_of V nr rc cc = Some f ->
+     vnth (tab nc f) j = mnth (tab2 nr nc (column_bases_of V nr sr rc cc)) 0 j) /\
+  (forall f i, i < nr -> 0 < nc -> rows_base_of V nc rc cc = Some f ->
+     vnth (tab nr f) i = mnth (tab2 nr nc (row_bases_of V nc sc rc cc)) i 0).
+Proof.
+  exact (conj (model_col_constant V nr nc sr cc)
+        (conj (model_row_constant V nr nc sc rc)
+        (conj (fun f j => model_columns_base_is_row0 V nr nc sr rc cc f j)
+              (fun f i => model_rows_base_is_col0 V nr nc sc rc cc f i)))).
+Qed.
+Print Assumptions C02_model_bases_fit.
+
+(* the subtotal part of a 1-D margin adds the margin over the addends; NaN for a difference *)
+Theorem C02_rows_margin_subtotal nr nc rsubs csubs rb k :
+  k < List.length rsubs -> 0 < nc -> Forall (fun i => i < nr) (s_add (nth k rsubs nosub)) ->
+  (forall i, i < nr ->
+     vnth (fst (rows_margin_blocks nr rsubs (row_base_blocks nr nc rsubs csubs rb))) i = mnth rb i 0) /\
+  (s_sub (nth k rsubs nosub) = [] ->
+     vnth (snd (rows_margin_blocks nr rsubs (row_base_blocks nr nc rsubs csubs rb))) k
+     =x= vsum_idx (fst (rows_margin_blocks nr rsubs (row_base_blocks nr nc rsubs csubs rb)))
+                  (s_add (nth k rsubs nosub))) /\
+  (s_sub (nth k rsubs nosub) <> [] ->
+     vnth (snd (rows_margin_blocks nr rsubs (row_base_blocks nr nc rsubs csubs rb))) k = NaN).
+Proof. exact (rows_margin_subtotal nr nc rsubs csubs rb k). Qed.
+Print Assumptions C02_rows_margin_subtotal.
+
+Theorem C02_columns_margin_subtotal nr nc rsubs csubs cb l :
+  l < List.length csubs -> 0 < nr -> Forall (fun j => j < nc) (s_add (nth l csubs nosub)) ->
+  (forall j, j < nc ->
+     vnth (fst (cols_margin_blocks nc csubs (col_base_blocks nr nc rsubs csubs cb))) j = mnth cb 0 j) /\
+  (s_sub (nth l csubs nosub) = [] ->
+     vnth (snd (cols_margin_blocks nc csubs (col_base_blocks nr nc rsubs csubs cb))) l
+     =x= vsum_idx (fst (cols_margin_blocks nc csubs (col_base_blocks nr nc rsubs csubs cb)))
+                  (s_add (nth l csubs nosub))) /\
+  (s_sub (nth l csubs nosub) <> [] ->
+     vnth (snd (cols_margin_blocks nc csubs (col_base_blocks nr nc rsubs csubs cb))) l = NaN).
+Proof. exact (cols_margin_subtotal nr nc rsubs csubs cb l). Qed.
+Print Assumptions C02_columns_margin_subtotal.
+
+(* non-vacuity: the TRANSLATED terms run on a 1 x 2 slice, column bases [[3 5]], one row subtotal
+   {0}, two column subtotals {0,1} and 1 - 0: subtotal columns [[8 NaN]], the subtotal row repeats
+   [3 5], the intersections repeat [8 NaN]; the rows margin of a 2 x 1 slice with row bases
+   [[4] [6]] and the row subtotal {0,1} is [4 6] + [10]; without rows the table-base intersection
+   RAISES (numpy: index 0 is out of bounds) *)
+Example C02_gen_bases_example :
+  let cubem := fun (c a : string) =>
+                 if String.eqb a "column_bases" then [[Fin 3%Q; Fin 5%Q]] else [[Fin 7%Q; Fin 7%Q]] in
+  let E := benv_std 1 2 [mkSub [0] []] [mkSub [0; 1] []; mkSub [1] [0]] cubem cv0
+                    (fun _ _ => false) no_blk no_mblk no_mflag in
+  let E0 := benv_std 0 2 [] [mkSub [0; 1] []] (fun _ _ => []) cv0 (fun _ _ => false) no_blk no_mblk no_mflag in
+  let blk := fun (m : string) (bi bj : nat) =>
+               match bi with 0 => [[Fin 4%Q]; [Fin 6%Q]] | _ => [[Fin 10%Q]] end in
+  let EM := benv_std 2 1 [mkSub [0; 1] []] [] (fun _ _ => []) (cv1 "weighted_cube_counts" "rows_base" (WVec 2 (fun _ => Fin 1%Q)))
+                     (fun _ _ => false) blk no_mblk no_mflag in
+  match src_ColumnWeightedBases_blocks_01, src_ColumnWeightedBases_blocks_10, src_ColumnWeightedBases_blocks_11,
+        src_TableWeightedBases_blocks_11, src_RowsWeightedBase_blocks_0, src_RowsWeightedBase_blocks_1 with
+  | Some e01, Some e10, Some e11, Some t11, Some m0, Some m1 =>
+      bshape_of (beval E e01) = [1; 2] /\ bcell (beval E e01) 0 0 =x= Fin 8%Q /\ bcell (beval E e01) 0 1 = NaN /\
+      bshape_of (beval E e10) = [1; 2] /\ bcell (beval E e10) 0 0 =x= Fin 3%Q /\ bcell (beval E e10) 0 1 =x= Fin 5%Q /\
+      bshape_of (beval E e11) = [1; 2] /\ bcell (beval E e11) 0 0 =x= Fin 8%Q /\ bcell (beval E e11) 0 1 = NaN /\
+      bcell (beval E t11) 0 1 =x= Fin 7%Q /\ is_err (beval E0 t11) = true /\
+      bshape_of (beval EM m0) = [2] /\ bcell (beval EM m0) 0 1 =x= Fin 6%Q /\
+      bshape_of (beval EM m1) = [1] /\ bcell (beval EM m1) 0 0 =x= Fin 10%Q
+  | _, _, _, _, _, _ => True
+  end.
+Proof. vm_compute. first [exact I | repeat split; reflexivity]. Qed.
+
+End GenAgreeBases_C02.
+(* ---- BASES-APPENDIX:END ---- *)
+
+(* ---- WIRING-APPENDIX:BEGIN (generated by tools/gen_wiring_props.py; do not edit) ---- *)
+From CC Require Proofs.GenAgreeWiring_C02.
+Section Wiring_C02.
+Import Coq.Lists.List Coq.ZArith.ZArith Coq.Strings.String CC.Base.WiringExp CC.Gen.WiringSrc.
+Import ListNotations.
+Local Open Scope string_scope.
+
+Theorem C02_wiring_Slice_column_unweighted_bases :
+  wsrc_Slice_column_unweighted_bases = Some (w_matrix_of "column_unweighted_bases").
+Proof. exact Proofs.GenAgreeWiring_C02.gen_wiring_Slice_column_unweighted_bases. Qed.
+Print Assumptions C02_wiring_Slice_column_unweighted_bases.
+
+Theorem C02_wiring_Slice_column_weighted_bases :
+  wsrc_Slice_column_weighted_bases = Some (w_matrix_of "column_weighted_bases").
+Proof. exact Proofs.GenAgreeWiring_C02.gen_wiring_Slice_column_weighted_bases. Qed.
+Print Assumptions C02_wiring_Slice_column_weighted_bases.
+
+Theorem C02_wiring_Slice_columns_base :
+  wsrc_Slice_columns_base = Some (WIf (WUn "not" (WAttr (WAttr (WSelf "_measures")
+      "columns_unweighted_base") "is_defined")) (WSelf "column_unweighted_bases") (w_marginal_of
+      "columns_unweighted_base")).
+Proof. exact Proofs.GenAgreeWiring_C02.gen_wiring_Slice_columns_base. Qed.
+Print Assumptions C02_wiring_Slice_columns_base.
+
+Theorem C02_wiring_Slice_columns_margin :
+  wsrc_Slice_columns_margin = Some (WIf (WUn "not" (WAttr (WAttr (WSelf "_measures")
+      "columns_weighted_base") "is_defined")) (WSelf "column_weighted_bases") (w_marginal_of
+      "columns_weighted_base")).
+Proof. exact Proofs.GenAgreeWiring_C02.gen_wiring_Slice_columns_margin. Qed.
+Print Assumptions C02_wiring_Slice_columns_margin.
+
+Theorem C02_wiring_Slice_min_base_size_mask :
+  wsrc_Slice_min_base_size_mask = Some (WCall (WGlobal "MinBaseSizeMask") [WVar "self"; WSelf
+      "_mask_size"] []).
+Proof. exact Proofs.GenAgreeWiring_C02.gen_wiring_Slice_min_base_size_mask. Qed.
+Print Assumptions C02_wiring_Slice_min_base_size_mask.
+
+Theorem C02_wiring_Slice_row_unweighted_bases :
+  wsrc_Slice_row_unweighted_bases = Some (w_matrix_of "row_unweighted_bases").
+Proof. exact Proofs.GenAgreeWiring_C02.gen_wiring_Slice_row_unweighted_bases. Qed.
+Print Assumptions C02_wiring_Slice_row_unweighted_bases.
+
+Theorem C02_wiring_Slice_row_weighted_bases :
+  wsrc_Slice_row_weighted_bases = Some (w_matrix_of "row_weighted_bases").
+Proof. exact Proofs.GenAgreeWiring_C02.gen_wiring_Slice_row_weighted_bases. Qed.
+Print Assumptions C02_wiring_Slice_row_weighted_bases.
+
+Theorem C02_wiring_Slice_rows_base :
+  wsrc_Slice_rows_base = Some (WIf (WUn "not" (WAttr (WAttr (WSelf "_measures")
+      "rows_unweighted_base") "is_defined")) (WSelf "row_unweighted_bases") (w_marginal_of
+      "rows_unweighted_base")).
+Proof. exact Proofs.GenAgreeWiring_C02.gen_wiring_Slice_rows_base. Qed.
+Print Assumptions C02_wiring_Slice_rows_base.
+
+Theorem C02_wiring_Slice_rows_margin :
+  wsrc_Slice_rows_margin = Some (WIf (WUn "not" (WAttr (WAttr (WSelf "_measures")
+      "rows_weighted_base") "is_defined")) (WSelf "row_weighted_bases") (w_marginal_of
+      "rows_weighted_base")).
+Proof. exact Proofs.GenAgreeWiring_C02.gen_wiring_Slice_rows_margin. Qed.
+Print Assumptions C02_wiring_Slice_rows_margin.
+
+Theorem C02_wiring_Slice_table_base :
+  wsrc_Slice_table_base = Some (WIf (WAttr (WAttr (WSelf "_measures") "table_unweighted_base")
+      "is_defined") (WAttr (WAttr (WSelf "_measures") "table_unweighted_base") "value") (WIf (WAttr
+      (WAttr (WSelf "_measures") "columns_table_unweighted_base") "is_defined") (w_marginal_of
+      "columns_table_unweighted_base") (WIf (WAttr (WAttr (WSelf "_measures")
+      "rows_table_unweighted_base") "is_defined") (w_marginal_of "rows_table_unweighted_base")
+      (WSelf "table_unweighted_bases")))).
+Proof. exact Proofs.GenAgreeWiring_C02.gen_wiring_Slice_table_base. Qed.
+Print Assumptions C02_wiring_Slice_table_base.
+
+Theorem C02_wiring_Slice_table_margin :
+  wsrc_Slice_table_margin = Some (WIf (WAttr (WAttr (WSelf "_measures") "table_weighted_base")
+      "is_defined") (WAttr (WAttr (WSelf "_measures") "table_weighted_base") "value") (WIf (WAttr
+      (WAttr (WSelf "_measures") "columns_table_weighted_base") "is_defined") (w_marginal_of
+      "columns_table_weighted_base") (WIf (WAttr (WAttr (WSelf "_measures")
+      "rows_table_weighted_base") "is_defined") (w_marginal_of "rows_table_weighted_base") (WSelf
+      "table_weighted_bases")))).
+Proof. exact Proofs.GenAgreeWiring_C02.gen_wiring_Slice_table_margin. Qed.
+Print Assumptions C02_wiring_Slice_table_margin.
+
+Theorem C02_wiring_Slice_table_unweighted_bases :
+  wsrc_Slice_table_unweighted_bases = Some (w_matrix_of "table_unweighted_bases").
+Proof. exact Proofs.GenAgreeWiring_C02.gen_wiring_Slice_table_unweighted_bases. Qed.
+Print Assumptions C02_wiring_Slice_table_unweighted_bases.
+
+Theorem C02_wiring_Slice_table_weighted_bases :
+  wsrc_Slice_table_weighted_bases = Some (w_matrix_of "table_weighted_bases").
+Proof. exact Proofs.GenAgreeWiring_C02.gen_wiring_Slice_table_weighted_bases. Qed.
+Print Assumptions C02_wiring_Slice_table_weighted_bases.
+
+Theorem C02_wiring_Slice_table_base_range :
+  wsrc_Slice_table_base_range = Some (WAttr (WAttr (WSelf "_measures") "table_unweighted_bases_range")
+      "value").
+Proof. exact Proofs.GenAgreeWiring_C02.gen_wiring_Slice_table_base_range. Qed.
+Print Assumptions C02_wiring_Slice_table_base_range.
+
+Theorem C02_wiring_Slice_table_margin_range :
+  wsrc_Slice_table_margin_range = Some (WAttr (WAttr (WSelf "_measures") "table_weighted_bases_range")
+      "value").
+Proof. exact Proofs.GenAgreeWiring_C02.gen_wiring_Slice_table_margin_range. Qed.
+Print Assumptions C02_wiring_Slice_table_margin_range.
+
+Theorem C02_wiring_Strand_min_base_size_mask :
+  wsrc_Strand_min_base_size_mask = Some (WCmp "<" (WSelf "unweighted_bases") (WSelf "_mask_size")).
+Proof. exact Proofs.GenAgreeWiring_C02.gen_wiring_Strand_min_base_size_mask. Qed.
+Print Assumptions C02_wiring_Strand_min_base_size_mask.
+
+Theorem C02_wiring_Strand_rows_base :
+  wsrc_Strand_rows_base = Some (WSelf "unweighted_counts").
+Proof. exact Proofs.GenAgreeWiring_C02.gen_wiring_Strand_rows_base. Qed.
+Print Assumptions C02_wiring_Strand_rows_base.
+
+Theorem C02_wiring_Strand_rows_margin :
+  wsrc_Strand_rows_margin = Some (WSelf "counts").
+Proof. exact Proofs.GenAgreeWiring_C02.gen_wiring_Strand_rows_margin. Qed.
+Print Assumptions C02_wiring_Strand_rows_margin.
+
+Theorem C02_wiring_Strand_table_base_range :
+  wsrc_Strand_table_base_range = Some (WAttr (WAttr (WSelf "_measures") "unweighted_bases")
+      "table_base_range").
+Proof. exact Proofs.GenAgreeWiring_C02.gen_wiring_Strand_table_base_range. Qed.
+Print Assumptions C02_wiring_Strand_table_base_range.
+
+Theorem C02_wiring_Strand_table_margin_range :
+  wsrc_Strand_table_margin_range = Some (WAttr (WAttr (WSelf "_measures") "weighted_bases")
+      "table_margin_range").
+Proof. exact Proofs.GenAgreeWiring_C02.gen_wiring_Strand_table_margin_range. Qed.
+Print Assumptions C02_wiring_Strand_table_margin_range.
+
+Theorem C02_wiring_Strand_unweighted_bases :
+  wsrc_Strand_unweighted_bases = Some (w_vector_of "unweighted_bases").
+Proof. exact Proofs.GenAgreeWiring_C02.gen_wiring_Strand_unweighted_bases. Qed.
+Print Assumptions C02_wiring_Strand_unweighted_bases.
+
+Theorem C02_wiring_Strand_weighted_bases :
+  wsrc_Strand_weighted_bases = Some (w_vector_of "weighted_bases").
+Proof. exact Proofs.GenAgreeWiring_C02.gen_wiring_Strand_weighted_bases. Qed.
+Print Assumptions C02_wiring_Strand_weighted_bases.
+
+Theorem C02_wiring_Nub_table_base :
+  wsrc_Nub_table_base = Some (WAttr (WSelf "_scalar") "table_base").
+Proof. exact Proofs.GenAgreeWiring_C02.gen_wiring_Nub_table_base. Qed.
+Print Assumptions C02_wiring_Nub_table_base.
+
+Theorem C02_wiring_SecondOrderMeasures_column_unweighted_bases :
+  wsrc_SecondOrderMeasures_column_unweighted_bases = Some (WCall (WGlobal "_ColumnUnweightedBases")
+      [WSelf "_dimensions"; WVar "self"; WSelf "_cube_measures"] []).
+Proof. exact Proofs.GenAgreeWiring_C02.gen_wiring_SecondOrderMeasures_column_unweighted_bases. Qed.
+Print Assumptions C02_wiring_SecondOrderMeasures_column_unweighted_bases.
+
+Theorem C02_wiring_SecondOrderMeasures_column_weighted_bases :
+  wsrc_SecondOrderMeasures_column_weighted_bases = Some (WCall (WGlobal "_ColumnWeightedBases") [WSelf
+      "_dimensions"; WVar "self"; WSelf "_cube_measures"] []).
+Proof. exact Proofs.GenAgreeWiring_C02.gen_wiring_SecondOrderMeasures_column_weighted_bases. Qed.
+Print Assumptions C02_wiring_SecondOrderMeasures_column_weighted_bases.
+
+Theorem C02_wiring_SecondOrderMeasures_columns_table_unweighted_base :
+  wsrc_SecondOrderMeasures_columns_table_unweighted_base = Some (WCall (WGlobal "_MarginTableBase")
+      [WSelf "_dimensions"; WVar "self"; WSelf "_cube_measures"; WAttr (WGlobal "MO") "COLUMNS";
+      WAttr (WSelf "_cube_measures") "unweighted_cube_counts"] []).
+Proof. exact Proofs.GenAgreeWiring_C02.gen_wiring_SecondOrderMeasures_columns_table_unweighted_base. Qed.
+Print Assumptions C02_wiring_SecondOrderMeasures_columns_table_unweighted_base.
+
+Theorem C02_wiring_SecondOrderMeasures_columns_table_weighted_base :
+  wsrc_SecondOrderMeasures_columns_table_weighted_base = Some (WCall (WGlobal "_MarginTableBase")
+      [WSelf "_dimensions"; WVar "self"; WSelf "_cube_measures"; WAttr (WGlobal "MO") "COLUMNS";
+      WAttr (WSelf "_cube_measures") "weighted_cube_counts"] []).
+Proof. exact Proofs.GenAgreeWiring_C02.gen_wiring_SecondOrderMeasures_columns_table_weighted_base. Qed.
+Print Assumptions C02_wiring_SecondOrderMeasures_columns_table_weighted_base.
+
+Theorem C02_wiring_SecondOrderMeasures_columns_unweighted_base :
+  wsrc_SecondOrderMeasures_columns_unweighted_base = Some (WCall (WGlobal "_MarginUnweightedBase")
+      [WSelf "_dimensions"; WVar "self"; WSelf "_cube_measures"; WAttr (WGlobal "MO") "COLUMNS"]
+      []).
+Proof. exact Proofs.GenAgreeWiring_C02.gen_wiring_SecondOrderMeasures_columns_unweighted_base. Qed.
+Print Assumptions C02_wiring_SecondOrderMeasures_columns_unweighted_base.
+
+Theorem C02_wiring_SecondOrderMeasures_columns_weighted_base :
+  wsrc_SecondOrderMeasures_columns_weighted_base = Some (WCall (WGlobal "_MarginWeightedBase") [WSelf
+      "_dimensions"; WVar "self"; WSelf "_cube_measures"; WAttr (WGlobal "MO") "COLUMNS"] []).
+Proof. exact Proofs.GenAgreeWiring_C02.gen_wiring_SecondOrderMeasures_columns_weighted_base. Qed.
+Print Assumptions C02_wiring_SecondOrderMeasures_columns_weighted_base.
+
+Theorem C02_wiring_SecondOrderMeasures_row_unweighted_bases :
+  wsrc_SecondOrderMeasures_row_unweighted_bases = Some (WCall (WGlobal "_RowUnweightedBases") [WSelf
+      "_dimensions"; WVar "self"; WSelf "_cube_measures"] []).
+Proof. exact Proofs.GenAgreeWiring_C02.gen_wiring_SecondOrderMeasures_row_unweighted_bases. Qed.
+Print Assumptions C02_wiring_SecondOrderMeasures_row_unweighted_bases.
+
+Theorem C02_wiring_SecondOrderMeasures_row_weighted_bases :
+  wsrc_SecondOrderMeasures_row_weighted_bases = Some (WCall (WGlobal "_RowWeightedBases") [WSelf
+      "_dimensions"; WVar "self"; WSelf "_cube_measures"] []).
+Proof. exact Proofs.GenAgreeWiring_C02.gen_wiring_SecondOrderMeasures_row_weighted_bases. Qed.
+Print Assumptions C02_wiring_SecondOrderMeasures_row_weighted_bases.
+
+Theorem C02_wiring_SecondOrderMeasures_rows_table_unweighted_base :
+  wsrc_SecondOrderMeasures_rows_table_unweighted_base = Some (WCall (WGlobal "_MarginTableBase")
+      [WSelf "_dimensions"; WVar "self"; WSelf "_cube_measures"; WAttr (WGlobal "MO") "ROWS"; WAttr
+      (WSelf "_cube_measures") "unweighted_cube_counts"] []).
+Proof. exact Proofs.GenAgreeWiring_C02.gen_wiring_SecondOrderMeasures_rows_table_unweighted_base. Qed.
+Print Assumptions C02_wiring_SecondOrderMeasures_rows_table_unweighted_base.
+
+Theorem C02_wiring_SecondOrderMeasures_rows_table_weighted_base :
+  wsrc_SecondOrderMeasures_rows_table_weighted_base = Some (WCall (WGlobal "_MarginTableBase") [WSelf
+      "_dimensions"; WVar "self"; WSelf "_cube_measures"; WAttr (WGlobal "MO") "ROWS"; WAttr (WSelf
+      "_cube_measures") "weighted_cube_counts"] []).
+Proof. exact Proofs.GenAgreeWiring_C02.gen_wiring_SecondOrderMeasures_rows_table_weighted_base. Qed.
+Print Assumptions C02_wiring_SecondOrderMeasures_rows_table_weighted_base.
+
+Theorem C02_wiring_SecondOrderMeasures_rows_unweighted_base :
+  wsrc_SecondOrderMeasures_rows_unweighted_base = Some (WCall (WGlobal "_MarginUnweightedBase") [WSelf
+      "_dimensions"; WVar "self"; WSelf "_cube_measures"; WAttr (WGlobal "MO") "ROWS"] []).
+Proof. exact Proofs.GenAgreeWiring_C02.gen_wiring_SecondOrderMeasures_rows_unweighted_base. Qed.
+Print Assumptions C02_wiring_SecondOrderMeasures_rows_unweighted_base.
+
+Theorem C02_wiring_SecondOrderMeasures_rows_weighted_base :
+  wsrc_SecondOrderMeasures_rows_weighted_base = Some (WCall (WGlobal "_MarginWeightedBase") [WSelf
+      "_dimensions"; WVar "self"; WSelf "_cube_measures"; WAttr (WGlobal "MO") "ROWS"] []).
+Proof. exact Proofs.GenAgreeWiring_C02.gen_wiring_SecondOrderMeasures_rows_weighted_base. Qed.
+Print Assumptions C02_wiring_SecondOrderMeasures_rows_weighted_base.
+
+Theorem C02_wiring_SecondOrderMeasures_table_unweighted_base :
+  wsrc_SecondOrderMeasures_table_unweighted_base = Some (WCall (WGlobal "_TableBase") [WSelf
+      "_dimensions"; WVar "self"; WSelf "_cube_measures"; WAttr (WSelf "_cube_measures")
+      "unweighted_cube_counts"] []).
+Proof. exact Proofs.GenAgreeWiring_C02.gen_wiring_SecondOrderMeasures_table_unweighted_base. Qed.
+Print Assumptions C02_wiring_SecondOrderMeasures_table_unweighted_base.
+
+Theorem C02_wiring_SecondOrderMeasures_table_unweighted_bases :
+  wsrc_SecondOrderMeasures_table_unweighted_bases = Some (WCall (WGlobal "_TableUnweightedBases")
+      [WSelf "_dimensions"; WVar "self"; WSelf "_cube_measures"] []).
+Proof. exact Proofs.GenAgreeWiring_C02.gen_wiring_SecondOrderMeasures_table_unweighted_bases. Qed.
+Print Assumptions C02_wiring_SecondOrderMeasures_table_unweighted_bases.
+
+Theorem C02_wiring_SecondOrderMeasures_table_unweighted_bases_range :
+  wsrc_SecondOrderMeasures_table_unweighted_bases_range = Some (WCall (WGlobal "_TableBasesRange")
+      [WSelf "_dimensions"; WVar "self"; WSelf "_cube_measures"; WAttr (WSelf "_cube_measures")
+      "unweighted_cube_counts"] []).
+Proof. exact Proofs.GenAgreeWiring_C02.gen_wiring_SecondOrderMeasures_table_unweighted_bases_range. Qed.
+Print Assumptions C02_wiring_SecondOrderMeasures_table_unweighted_bases_range.
+
+Theorem C02_wiring_SecondOrderMeasures_table_weighted_base :
+  wsrc_SecondOrderMeasures_table_weighted_base = Some (WCall (WGlobal "_TableBase") [WSelf
+      "_dimensions"; WVar "self"; WSelf "_cube_measures"; WAttr (WSelf "_cube_measures")
+      "weighted_cube_counts"] []).
+Proof. exact Proofs.GenAgreeWiring_C02.gen_wiring_SecondOrderMeasures_table_weighted_base. Qed.
+Print Assumptions C02_wiring_SecondOrderMeasures_table_weighted_base.
+
+Theorem C02_wiring_SecondOrderMeasures_table_weighted_bases :
+  wsrc_SecondOrderMeasures_table_weighted_bases = Some (WCall (WGlobal "_TableWeightedBases") [WSelf
+      "_dimensions"; WVar "self"; WSelf "_cube_measures"] []).
+Proof. exact Proofs.GenAgreeWiring_C02.gen_wiring_SecondOrderMeasures_table_weighted_bases. Qed.
+Print Assumptions C02_wiring_SecondOrderMeasures_table_weighted_bases.
+
+Theorem C02_wiring_SecondOrderMeasures_table_weighted_bases_range :
+  wsrc_SecondOrderMeasures_table_weighted_bases_range = Some (WCall (WGlobal "_TableBasesRange")
+      [WSelf "_dimensions"; WVar "self"; WSelf "_cube_measures"; WAttr (WSelf "_cube_measures")
+      "weighted_cube_counts"] []).
+Proof. exact Proofs.GenAgreeWiring_C02.gen_wiring_SecondOrderMeasures_table_weighted_bases_range. Qed.
+Print Assumptions C02_wiring_SecondOrderMeasures_table_weighted_bases_range.
+
+Theorem C02_wiring_StripeMeasures_unweighted_bases :
+  wsrc_StripeMeasures_unweighted_bases = Some (WCall (WGlobal "_UnweightedBases") [WSelf
+      "_rows_dimension"; WVar "self"; WSelf "_cube_measures"] []).
+Proof. exact Proofs.GenAgreeWiring_C02.gen_wiring_StripeMeasures_unweighted_bases. Qed.
+Print Assumptions C02_wiring_StripeMeasures_unweighted_bases.
+
+Theorem C02_wiring_StripeMeasures_weighted_bases :
+  wsrc_StripeMeasures_weighted_bases = Some (WCall (WGlobal "_WeightedBases") [WSelf
+      "_rows_dimension"; WVar "self"; WSelf "_cube_measures"] []).
+Proof. exact Proofs.GenAgreeWiring_C02.gen_wiring_StripeMeasures_weighted_bases. Qed.
+Print Assumptions C02_wiring_StripeMeasures_weighted_bases.
+
+End Wiring_C02.
+(* ---- WIRING-APPENDIX:END ---- *)
